@@ -2,7 +2,7 @@ package main
 
 // crash — C01 sweep: evaluates programs and calls built-in functions directly, one case per
 // request line, under recover(), an evaluation fuel (hook: build tag verif), a wall-clock
-// watchdog and a heap watchdog. For every case the line {"start":id} is flushed BEFORE the
+// watchdog and a heap watchdog. For every case the line ">id" is flushed BEFORE the
 // case runs, so that when the process dies (fatal error, stack overflow, watchdog) the driver
 // knows which case did it, records it, and restarts the process on the rest.
 //
